@@ -6,19 +6,20 @@ namespace RtenVerif.Executor
 open RtenVerif.Graph
 
 /-- The plan loop against the naive loop, for any prefix `pre` of the plan. -/
-theorem runSteps_refines_prefix {V : Type} {ops : Ops V} {r : Run V} {total : Nat → Nat}
-    {outs : List Nat} (hwf : WF r) (hcap : r.g.captures = []) (hct : Contract ops r.g)
+theorem runSteps_refines_prefix {V : Type} {ops : Ops V} {r : Run V}
+    {caps0 : Nat → Option (V × Bool)} {total : Nat → Nat}
+    {outs : List Nat} (hwf : WF r) (hcw : CapsWF r caps0) (hct : Contract ops r.g)
     (rest : List Nat) :
-    ∀ (pre : List Nat) (st : St V) (E : Nat → Option V), Sim r total (pre ++ rest) outs st E →
+    ∀ (pre : List Nat) (st : St V) (E : Nat → Option V), Sim r caps0 total (pre ++ rest) outs st E →
       match (runSteps ops r st pre).1 with
-      | .ok st' => ∃ E', naiveSteps ops r nocap E pre = .ok E' ∧ Sim r total rest outs st' E'
-      | .error e => naiveSteps ops r nocap E pre = .error e := by
+      | .ok st' => ∃ E', naiveSteps ops r caps0 E pre = .ok E' ∧ Sim r caps0 total rest outs st' E'
+      | .error e => naiveSteps ops r caps0 E pre = .error e := by
   intro pre
   induction pre with
   | nil => intro st E hs; exact ⟨E, rfl, hs⟩
   | cons i is ih =>
     intro st E hs
-    have hstep := step_refines hwf hcap hct hs
+    have hstep := step_refines hwf hcw hct hs
     simp only [runSteps, naiveSteps]
     cases hst : step ops r st i with
     | error e =>
@@ -33,14 +34,15 @@ theorem runSteps_refines_prefix {V : Type} {ops : Ops V} {r : Run V} {total : Na
       exact ih st1 E1 hs1
 
 /-- The plan loop against the naive loop. -/
-theorem runSteps_refines {V : Type} {ops : Ops V} {r : Run V} {total : Nat → Nat}
-    {outs : List Nat} (hwf : WF r) (hcap : r.g.captures = []) (hct : Contract ops r.g) :
-    ∀ (plan : List Nat) (st : St V) (E : Nat → Option V), Sim r total plan outs st E →
+theorem runSteps_refines {V : Type} {ops : Ops V} {r : Run V}
+    {caps0 : Nat → Option (V × Bool)} {total : Nat → Nat}
+    {outs : List Nat} (hwf : WF r) (hcw : CapsWF r caps0) (hct : Contract ops r.g) :
+    ∀ (plan : List Nat) (st : St V) (E : Nat → Option V), Sim r caps0 total plan outs st E →
       match (runSteps ops r st plan).1 with
-      | .ok st' => ∃ E', naiveSteps ops r nocap E plan = .ok E' ∧ Sim r total [] outs st' E'
-      | .error e => naiveSteps ops r nocap E plan = .error e := by
+      | .ok st' => ∃ E', naiveSteps ops r caps0 E plan = .ok E' ∧ Sim r caps0 total [] outs st' E'
+      | .error e => naiveSteps ops r caps0 E plan = .error e := by
   intro plan st E hs
-  exact runSteps_refines_prefix hwf hcap hct [] plan st E (by rw [List.append_nil]; exact hs)
+  exact runSteps_refines_prefix hwf hcw hct [] plan st E (by rw [List.append_nil]; exact hs)
 
 theorem isValue_of_voc {g : Graph} {v : Nat} (h1 : isValueOrConstant g v = true)
     (h2 : isConstant g v = false) : isValue g v = true := by
@@ -53,11 +55,12 @@ theorem isValue_of_voc {g : Graph} {v : Nat} (h1 : isValueOrConstant g v = true)
   · simp at h1
 
 /-- The state after the counting phase satisfies `Sim`. -/
-theorem Sim.init {V : Type} {r : Run V} {plan outs : List Nat} {rc : Nat → Nat} (hwf : WF r)
+theorem Sim.init {V : Type} {r : Run V} (caps0 : Nat → Option (V × Bool)) {plan outs : List Nat}
+    {rc : Nat → Nat} (hwf : WF r)
     (hrc : initRc r.g plan outs = some rc) :
-    Sim r (uses r.g plan outs) plan outs { temps := initTemps r, rc := rc, caps := nocap }
+    Sim r caps0 (uses r.g plan outs) plan outs { temps := initTemps r, rc := rc, caps := caps0 }
       (fun _ => none) := by
-  refine ⟨?_, ?_, fun _ => rfl, ?_, ?_⟩
+  refine ⟨?_, ?_, rfl, fun _ _ => rfl, ?_, ?_⟩
   · intro v; show rc v ≤ 255; rw [initRc_eq hrc v]; omega
   · intro v _
     refine ⟨?_, Nat.le_refl _⟩
@@ -83,12 +86,14 @@ theorem Sim.init {V : Type} {r : Run V} {plan outs : List Nat} {rc : Nat → Nat
     | none => rw [ho] at hval; simp at hval
 
 /-- Final output collection against the naive lookup. -/
-theorem collectOutputs_refines {V : Type} {r : Run V} {E : Nat → Option V} :
-    ∀ (os : List Nat) (st : St V), os.Nodup → NoCaps st →
+theorem collectOutputs_refines {V : Type} {r : Run V} {caps0 : Nat → Option (V × Bool)}
+    {E : Nat → Option V} (hcw : CapsWF r caps0)
+    (hcE : ∀ v, r.g.captures.contains v = true → E v = none) :
+    ∀ (os : List Nat) (st : St V), os.Nodup → st.caps = caps0 →
       (∀ v x, st.temps v = some x → isValue r.g v = true ∧ r.borrowed v = none ∧ val r E v = some x) →
       (∀ v ∈ os, isValue r.g v = true → r.borrowed v = none → val r E v ≠ none →
         st.temps v ≠ none) →
-      (collectOutputs r st os).1 = naiveOutputs (val r E) os := by
+      (collectOutputs r st os).1 = naiveOutputs (valC r caps0 E) os := by
   intro os
   induction os with
   | nil => intro st _ _ _ _; rfl
@@ -97,43 +102,61 @@ theorem collectOutputs_refines {V : Type} {r : Run V} {E : Nat → Option V} :
     simp only [List.nodup_cons] at hnd
     simp only [collectOutputs, naiveOutputs, constOrInput]
     cases hn : getNode r.g o with
-    | none => simp [val, naiveLook, hn]
+    | none => simp [valC, naiveLook, hn]
     | some n =>
       cases n with
-      | operator op => simp [val, naiveLook, hn]
+      | operator op => simp [valC, naiveLook, hn]
       | constant =>
-        have hv : val r E o = some (r.consts o) := by simp [val, naiveLook, hn]
+        have hv : valC r caps0 E o = some (r.consts o) := by simp [valC, naiveLook, hn]
         simp only [hv]
         rw [← ih st hnd.2 hc hA (fun v hv => hL v (List.mem_cons_of_mem _ hv))]
       | value =>
         have hval : isValue r.g o = true := by simp [isValue, hn]
         cases hb : r.borrowed o with
         | some b =>
-          have hv : val r E o = some b := by simp [val, naiveLook, hn, hb]
+          have hv : valC r caps0 E o = some b := by simp [valC, naiveLook, hn, hb]
           simp only [hv]
           rw [← ih st hnd.2 hc hA (fun v hv => hL v (List.mem_cons_of_mem _ hv))]
         | none =>
-          simp only [hc o]
-          cases ht : st.temps o with
-          | some x =>
-            have hv := (hA o x ht).2.2
+          simp only
+          have hco : st.caps o = caps0 o := by rw [hc]
+          rw [hco]
+          cases hcp : caps0 o with
+          | some p =>
+            obtain ⟨cv, cb⟩ := p
+            have hcap := hcw.dom o (by rw [hcp]; simp)
+            obtain ⟨_, hin, _⟩ := hcw.kind o hcap
+            obtain ⟨_, ho⟩ := isInput_false hin
+            have hvn : val r E o = none := by rw [val_value hval hb, ho]; exact hcE o hcap
+            have hv : valC r caps0 E o = some cv := by
+              rw [valC_eq, hvn]; simp [hval, hcp]
             simp only [hv]
-            rw [← ih { st with temps := upd st.temps o none } hnd.2 hc]
-            · intro v y hy
-              simp only [upd_apply] at hy
-              split at hy
-              · simp at hy
-              · exact hA v y hy
-            · intro v hv' h1 h2 h3
-              have hne : v ≠ o := by rintro rfl; exact hnd.1 hv'
-              simp only [upd_apply, hne, if_false]
-              exact hL v (List.mem_cons_of_mem _ hv') h1 h2 h3
+            rw [← ih st hnd.2 hc hA (fun v hv => hL v (List.mem_cons_of_mem _ hv))]
           | none =>
             simp only
-            cases hv : val r E o with
-            | none => rfl
-            | some y =>
-              exact absurd ht (hL o List.mem_cons_self hval hb (by rw [hv]; simp))
+            cases ht : st.temps o with
+            | some x =>
+              have hv : valC r caps0 E o = some x := valC_of_val (hA o x ht).2.2
+              simp only [hv]
+              rw [← ih { st with temps := upd st.temps o none } hnd.2 hc]
+              · intro v y hy
+                simp only [upd_apply] at hy
+                split at hy
+                · simp at hy
+                · exact hA v y hy
+              · intro v hv' h1 h2 h3
+                have hne : v ≠ o := by rintro rfl; exact hnd.1 hv'
+                simp only [upd_apply, hne, if_false]
+                exact hL v (List.mem_cons_of_mem _ hv') h1 h2 h3
+            | none =>
+              simp only
+              have hvn : val r E o = none := by
+                cases hv : val r E o with
+                | none => rfl
+                | some y => exact absurd ht (hL o List.mem_cons_self hval hb (by rw [hv]; simp))
+              have hv : valC r caps0 E o = none := by
+                rw [valC_eq, hvn]; simp [hcp]
+              simp only [hv]
 
 theorem incPlan_some (g : Graph) (plan : List Nat) (h : ∀ i ∈ plan, (getOp g i).isSome = true) :
     ∀ rc, (incPlan g rc plan).isSome = true := by
@@ -147,11 +170,14 @@ theorem incPlan_some (g : Graph) (plan : List Nat) (h : ∀ i ∈ plan, (getOp g
     | none => rw [hop] at this; simp at this
     | some op => exact ih (fun j hj => h j (List.mem_cons_of_mem _ hj)) _
 
-/-- **T3.** The outcome of `run_plan` is the outcome of the naive evaluation. -/
-theorem runPlan_refines {V : Type} {ops : Ops V} {r : Run V} {plan outs : List Nat} (hwf : WF r)
-    (hcap : r.g.captures = []) (hct : Contract ops r.g)
+/-- **T3 with a capture environment.** The outcome of `run_plan` run with the capture
+environment `caps0` (nothing takeable by value) is the outcome of the naive evaluation that
+reads capture placeholders from `caps0`. -/
+theorem runPlan_refines_caps {V : Type} {ops : Ops V} {r : Run V} {caps0 : Nat → Option (V × Bool)}
+    {plan outs : List Nat} (hwf : WF r)
+    (hcw : CapsWF r caps0) (hct : Contract ops r.g)
     (hplan : ∀ i ∈ plan, (getOp r.g i).isSome = true) (hnd : outs.Nodup) :
-    (runPlan ops r nocap plan outs).outcome = evalNaive ops r nocap plan outs := by
+    (runPlan ops r caps0 plan outs).outcome = evalNaive ops r caps0 plan outs := by
   unfold runPlan evalNaive
   cases hrc : initRc r.g plan outs with
   | none =>
@@ -164,9 +190,9 @@ theorem runPlan_refines {V : Type} {ops : Ops V} {r : Run V} {plan outs : List N
     | some rc1 => simp [hp] at hrc
   | some rc =>
     simp only
-    have hs := Sim.init hwf hrc
-    have hrun := runSteps_refines hwf hcap hct plan _ _ hs
-    cases hst : runSteps ops r { temps := initTemps r, rc := rc, caps := nocap } plan with
+    have hs := Sim.init caps0 hwf hrc
+    have hrun := runSteps_refines hwf hcw hct plan _ _ hs
+    cases hst : runSteps ops r { temps := initTemps r, rc := rc, caps := caps0 } plan with
     | mk res trs =>
       rw [hst] at hrun
       cases res with
@@ -177,7 +203,7 @@ theorem runPlan_refines {V : Type} {ops : Ops V} {r : Run V} {plan outs : List N
         simp only at hrun
         obtain ⟨E', hE', hs'⟩ := hrun
         simp only [hE']
-        have := collectOutputs_refines (r := r) (E := E') outs st' hnd hs'.nocaps hs'.agree
+        have := collectOutputs_refines (r := r) (E := E') hcw hs'.capE outs st' hnd hs'.caps hs'.agree
           (fun v hv h1 h2 h3 => hs'.live v h1 h2 (by
             simp only [uses]
             have := List.count_pos_iff.mpr hv
@@ -187,5 +213,12 @@ theorem runPlan_refines {V : Type} {ops : Ops V} {r : Run V} {plan outs : List N
           rw [hco] at this
           simp only at this ⊢
           exact this
+
+/-- **T3.** The outcome of `run_plan` is the outcome of the naive evaluation. -/
+theorem runPlan_refines {V : Type} {ops : Ops V} {r : Run V} {plan outs : List Nat} (hwf : WF r)
+    (hcap : r.g.captures = []) (hct : Contract ops r.g)
+    (hplan : ∀ i ∈ plan, (getOp r.g i).isSome = true) (hnd : outs.Nodup) :
+    (runPlan ops r nocap plan outs).outcome = evalNaive ops r nocap plan outs :=
+  runPlan_refines_caps hwf (capsWF_nocap r hcap) hct hplan hnd
 
 end RtenVerif.Executor
